@@ -59,6 +59,10 @@ type ScriptReader struct {
 	// OnCut, if set, is called once after the body was loaded (used to drop the
 	// HTTP trailers of a response whose transport failed).
 	OnCut func()
+	// OnEnd, if set, is called when the reader hands its terminal answer to
+	// the caller (with that answer).  A transport publishes HTTP trailers at
+	// this moment, not when the scripted reader loaded the body.
+	OnEnd func(err error)
 }
 
 func NewScriptReader(under io.ReadCloser, data []byte, s Script) *ScriptReader {
@@ -89,7 +93,12 @@ func (r *ScriptReader) Read(p []byte) (int, error) {
 	}
 	if r.pos >= total {
 		r.done = true
-		return 0, r.s.endErr()
+		err := r.s.endErr()
+		if r.OnEnd != nil {
+			r.OnEnd(err)
+			r.OnEnd = nil
+		}
+		return 0, err
 	}
 	if r.left == 0 {
 		switch {
@@ -117,7 +126,12 @@ func (r *ScriptReader) Read(p []byte) (int, error) {
 	r.left -= n
 	if r.pos >= total && r.s.WithLast {
 		r.done = true
-		return n, r.s.endErr()
+		err := r.s.endErr()
+		if r.OnEnd != nil {
+			r.OnEnd(err)
+			r.OnEnd = nil
+		}
+		return n, err
 	}
 	return n, nil
 }
